@@ -110,10 +110,24 @@ def get_known_types_for_arrays(array_names):
 
 
 ###############################################################################
+def verif_sched_enabled():
+    """Verification hook (off by default): with PYSPH_VERIF=1 and
+    PYSPH_VERIF_SCHED=1 in the environment the generated (non-OpenMP) loops
+    ask an external scheduler object, imported from the module named by
+    PYSPH_VERIF_SCHED_MODULE, which iteration runs next and under which
+    simulated thread id.
+    """
+    import os
+    return (os.environ.get('PYSPH_VERIF') == '1' and
+            os.environ.get('PYSPH_VERIF_SCHED') == '1' and
+            not get_config().use_openmp)
+
+
 class AccelerationEvalCythonHelper(object):
     def __init__(self, acceleration_eval):
         self.object = acceleration_eval
         self.config = get_config()
+        self.verif_sched = verif_sched_enabled()
         self.all_array_names = get_all_array_names(
             self.object.particle_arrays
         )
@@ -295,6 +309,8 @@ class AccelerationEvalCythonHelper(object):
             return "if True: # Placeholder used for OpenMP."
 
     def get_parallel_range(self, group, nogil=True):
+        if self.verif_sched:
+            return "_vsched.order(D_START_IDX, NP_DEST)"
         kwargs = {}
         if (group.stop_idx is not None) or group.start_idx:
             kwargs['schedule'] = 'dynamic'
